@@ -168,6 +168,14 @@ def run(tier, seed):
                 swapped.append((j2, tag + "/swap:" + nd["name"]))
                 break
     pairs += swapped
+    # variants whose topology is DECLARED (Graph(nodes, edges=...)) with exactly the edges inference would create
+    declared = []
+    for j, tag in pairs[:: (4 if thorough else 11)]:
+        ed = gen.inferred_edges(j["prog"])
+        if ed:
+            j2 = gen.job(0, dict(j["prog"], edges=ed), j["provided"], mode=j["mode"], select=None if j["select"] == IR.UNSET else j["select"])
+            declared.append((j2, tag + "/declared-edges"))
+    pairs += declared
     for i, (j, _) in enumerate(pairs):
         j["id"] = i + 1
     pairs += list(jobs_random(rng, 3000 if thorough else 400, len(pairs)))
@@ -176,7 +184,7 @@ def run(tier, seed):
     ctx.assumptions += ["node bodies are harness-generated pure string functions (Herbrand terms)",
                         "TLC evaluates the dependency-order denotation (HGProps!Denote) and checks the engine model against it (INVARIANT L1Holds); the real run is compared with the denotation itself"]
     return ctx.finish(
-        rule="all acyclic gate-free programs with 2-3 single-output nodes over externals {x,y} (inputs of size 1-2 from externals and earlier outputs), multi-output / side-effect-only / early-start variants, every assignment of provided|bound|default|absent to each external, both runners"
+        rule="all acyclic gate-free programs with 2-3 single-output nodes over externals {x,y} (inputs of size 1-2 from externals and earlier outputs), multi-output / side-effect-only / early-start / swapped-parameter / declared-edges variants, every assignment of provided|bound|default|absent to each external, both runners"
              + (", every node-list permutation" if thorough else "") + "; plus seeded random DAGs of 3-7 nodes; distinct = structural hash of (program, provided, select), non-trivial = >= 2 nodes",
         exhaustive=False)
 
